@@ -243,6 +243,24 @@ def run(ctx: Ctx):
                    f"slice is silently shorter and the shapes disagree at run time", rel, s0["node"].lineno,
                    sample=[u(s['node']) for s in ss])
     col.floor("index_slice_sites", nsites, 12)
+    # ---- S6 chunk_by_slices index arithmetic == per-sequence pad-and-slice specification -------------------------
+    _slice_arithmetic(ctx, cbs, gpb)
+    # ---- S7 handler / raiser agreement around the validation helpers -----------------------------------------------
+    from rules.excmatch import ArgcheckRaises, mismatched_handlers
+    acr = ArgcheckRaises(pkg)
+    ntry = 0
+    for f in ctx.owned():
+        bad, seen = mismatched_handlers(pkg, f, acr)
+        ntry += seen
+        frel = f.module.relname
+        for t, first, raises, caught in bad:
+            col.ob("G25", "S7", f"{frel}::{f.qualname}::handler-matches-raiser[{first.split('(')[0]}]", False,
+                   f"`{first}` raises {raises} on a non-conforming value but the enclosing try only catches {caught}: "
+                   f"the fallback branch (the documented alternative input form) is unreachable and the call raises "
+                   f"instead", frel, t.lineno)
+        if seen and not bad:
+            col.ob("G25", "S7", f"{frel}::{f.qualname}::handler-matches-raiser", True, "", frel, f.line)
+    col.floor("argcheck_try_sites", ntry, 1)
     plumbing(ctx, "S1")
     return dict(
         explanation=(
@@ -258,6 +276,155 @@ def run(ctx: Ctx):
         not_decided=["equality with per-sequence torch padding", "reflect offset correction", "pad_masked_sequence layout"],
         assumptions=["torch.rand_like draws from [0, 1)", ".long() truncates toward zero"],
     )
+
+
+def _slice_arithmetic(ctx: Ctx, cbs, gpb):
+    """S6: every length / mask of chunk_by_slices, as a min/max-linear term over (start, end, len, t), agrees with the
+    specification "take the sequence alone, pad it, slice it" at every point of a finite grid."""
+    from sa import minmax as MM
+    col = ctx.col
+    rel = cbs.module.relname
+    rd = ReachingDefs(cbs.node)
+    slices_param = cbs.params[1].name if len(cbs.params) > 1 else "slices"
+
+    def col_of(v):
+        # slices[..., i](.contiguous())
+        while isinstance(v, ast.Call) and isinstance(v.func, ast.Attribute) and v.func.attr in MM.PASS_METHODS:
+            v = v.func.value
+        if isinstance(v, ast.Subscript) and isinstance(v.value, ast.Name) and v.value.id == slices_param:
+            sl = v.slice
+            if isinstance(sl, ast.Tuple) and len(sl.elts) == 2 and isinstance(sl.elts[1], ast.Constant):
+                return {0: "S", 1: "E"}.get(sl.elts[1].value)
+        return None
+
+    def leaf_of_def(d):
+        if d.kind == "param" and d.name == "lens":
+            return "L"
+        if d.name == "lens" and d.kind == "assign":
+            return "L"  # the default (lens = T for every row) is an instance of the general case
+        v = d.value
+        if v is None:
+            return None
+        if d.kind == "unpack" and isinstance(v, ast.Tuple) and d.slot and len(d.slot) == 1 and d.slot[0] < len(v.elts):
+            return col_of(v.elts[d.slot[0]])
+        if d.kind == "assign":
+            c = col_of(v)
+            if c:
+                return c
+            if isinstance(v, ast.Call) and call_name(v) == "torch.arange":
+                return "t"
+            if isinstance(v, ast.Call) and isinstance(v.func, ast.Attribute) and v.func.attr == "size" and v.args \
+                    and isinstance(v.args[0], ast.Constant) and v.args[0].value == 1:
+                return "T"
+        if d.kind == "unpack" and isinstance(v, ast.Tuple) and d.slot and len(d.slot) == 1 and d.slot[0] < len(v.elts):
+            e = v.elts[d.slot[0]]
+            if isinstance(e, ast.Call) and isinstance(e.func, ast.Attribute) and e.func.attr == "size" and e.args \
+                    and isinstance(e.args[0], ast.Constant) and e.args[0].value == 1:
+                return "T"
+        return None
+
+    def leaf_of_expr(e):
+        if isinstance(e, ast.Subscript) and isinstance(e.value, ast.Name) and isinstance(e.slice, ast.Slice):
+            if {leaf_of_def(d) for d in rd.defs_of(e.value)} == {"t"}:
+                return "t"
+        return None
+
+    ex = MM.Extractor(rd, leaf_of_def, leaf_of_expr)
+
+    def grid(with_t):
+        for T in (1, 2, 3, 4):
+            for L in range(0, T + 1):
+                for S in range(-5, 10):
+                    for E in range(-5, 10):
+                        if with_t:
+                            for t in range(0, 17):
+                                yield dict(S=S, E=E, L=L, T=T, t=t)
+                        else:
+                            yield dict(S=S, E=E, L=L, T=T)
+
+    def CL(v): return max(v["E"] - v["S"], 0)
+    def LP(v): return 0 if CL(v) == 0 else max(-v["S"], 0)
+    def RP(v): return 0 if CL(v) == 0 else max(v["E"] - v["L"], 0)
+    def SL(v): return max(min(v["E"], v["L"]) - max(v["S"], 0), 0)
+    def OFF(v): return max(max(v["S"], 0) - v["L"], 0)
+
+    specs = {
+        "left-pad": (False, LP, "0 if the slice is empty else max(-start, 0)"),
+        "right-pad": (False, RP, "0 if the slice is empty else max(end - len, 0)"),
+        "chunk-lens": (False, CL, "max(end - start, 0)"),
+        "kept-elements": (True, lambda v: max(v["S"], 0) <= v["t"] < min(v["E"], v["L"]), "max(start,0) <= t < min(end,len)"),
+        "left-buffer-positions": (True, lambda v: v["t"] < LP(v), "t < left pad"),
+        "right-buffer-positions": (True, lambda v: LP(v) + SL(v) <= v["t"] < LP(v) + SL(v) + RP(v),
+                                   "left+kept <= t < left+kept+right"),
+        "reflect-tail-source": (True, lambda v: OFF(v) > 0 and LP(v) + SL(v) + OFF(v) <= v["t"] < LP(v) + SL(v) + RP(v),
+                                "slice wholly right of the sequence: positions offset.. of the right padding"),
+        "reflect-tail-target": (True, lambda v: OFF(v) > 0 and v["t"] < CL(v), "slice wholly right of the sequence: t < chunk length"),
+        "kept-positions": (True, lambda v: LP(v) <= v["t"] < LP(v) + SL(v), "left <= t < left+kept"),
+    }
+    found = {}
+    kcalls = [c for c in own_calls(cbs.node) if call_name(c) == "_get_padding_buffers"]
+    b = bind_args(kcalls[0], gpb, False)
+    found["left-pad"] = (b.arg_for("left_pad"), False)
+    found["right-pad"] = (b.arg_for("right_pad"), False)
+    rets = [n for n in own_nodes(cbs.node) if isinstance(n, ast.Return) and isinstance(n.value, ast.Tuple) and len(n.value.elts) == 2]
+    if not rets:
+        raise AnalysisError("C09: chunk_by_slices has no (chunks, lens) return")
+    last = max(rets, key=lambda r: r.lineno)
+    found["chunk-lens"] = (last.value.elts[1], False)
+    # buffers: unpack slots of the kernel call
+    buf_slot = {}
+    for d in rd.defs:
+        if d.kind == "unpack" and d.value is kcalls[0] and d.slot and len(d.slot) == 1:
+            buf_slot[d.name] = d.slot[0]
+
+    def source_role(e):
+        if not isinstance(e, ast.Name):
+            return None
+        ds = list(rd.defs_of(e))
+        if len(ds) != 1:
+            return None
+        d = ds[0]
+        if d.kind == "unpack" and d.value is kcalls[0]:
+            return {0: "left-buffer-positions", 1: "right-buffer-positions"}.get(d.slot[0])
+        v = d.value
+        if d.kind == "assign" and isinstance(v, ast.Subscript):
+            return "reflect-tail-target"
+        if d.kind == "assign" and isinstance(v, ast.Call) and isinstance(v.func, ast.Attribute) and v.func.attr == "masked_select":
+            return "kept-positions"
+        return None
+
+    for n in own_nodes(cbs.node):
+        if isinstance(n, ast.Call) and isinstance(n.func, ast.Attribute):
+            if n.func.attr == "masked_select" and len(n.args) == 1:
+                found["kept-elements"] = (n.args[0], True)
+            if n.func.attr == "masked_scatter" and len(n.args) == 2:
+                r = source_role(n.args[1])
+                if r is None:
+                    raise AnalysisError(f"C09: cannot tell what `{u(n)[:60]}` scatters")
+                if r in found:
+                    raise AnalysisError(f"C09: two scatters for {r}")
+                found[r] = (n.args[0], True)
+                if r == "reflect-tail-target":
+                    src = list(rd.defs_of(n.args[1]))[0].value
+                    found["reflect-tail-source"] = (src.slice, True)
+    missing = sorted(set(specs) - set(found))
+    if missing:
+        raise AnalysisError(f"C09: chunk_by_slices anchors not found: {missing}")
+    for key, (expr, is_c) in found.items():
+        with_t, want, text = specs[key]
+        try:
+            term = ex.cond(expr) if is_c else ex.term(expr)
+        except MM.Unknown as e:
+            raise AnalysisError(f"C09: {key} of chunk_by_slices is not a min/max-linear term: {e}")
+        env, g, w, n = MM.counterexample(term, want, grid(with_t))
+        shown = MM.showc(term) if is_c else MM.show(term)
+        col.ob("G12", "S6", f"{rel}::chunk_by_slices::slice-arithmetic[{key}]", env is None,
+               f"{key} is `{shown}`; the per-sequence pad-and-slice rule requires `{text}`; they differ e.g. at "
+               f"start={env and env['S']}, end={env and env['E']}, len={env and env['L']}, T={env and env['T']}"
+               f"{', t=%d' % env['t'] if env and 't' in env else ''}: {g} vs {w}", rel, getattr(expr, "lineno", cbs.line),
+               sample=dict(term=shown, grid_points=n))
+    col.count("slice_arith_terms", len(found))
+    col.floor("slice_arith_terms", len(found), 9)
 
 
 def _mutants():
